@@ -46,6 +46,23 @@ func C06(tier string) int {
 			}
 		}
 	}
+	// a failed (ignored) delete of an id, then the id is created and deleted in the same transaction
+	for dip, dop := range k2.Ops() {
+		if !strings.HasPrefix(dop.Name, "deleteIgnoringNotFound@") {
+			continue
+		}
+		id := k2.opInfo[dip].id
+		for c := range k2.Ops() {
+			if k2.opInfo[c].kind != "create" || k2.opInfo[c].id != id {
+				continue
+			}
+			for d := range k2.Ops() {
+				if k2.opInfo[d].kind == "delete" && k2.opInfo[d].id == id {
+					progs = append(progs, []int{dip, c, d})
+				}
+			}
+		}
+	}
 	cfg2 := explore.Config{Programs: progs, MaxDepth: 3, MaxTrans: 3_000_000, SkipRejectedPrefix: true, PerTransition: c06Oracle(rep, k2)}
 	if tier != "quick" {
 		cfg2.MaxDepth, cfg2.MaxTrans = 4, 20_000_000
@@ -73,6 +90,35 @@ func C06(tier string) int {
 				return nil
 			}
 			id := last[strings.Index(last, "(")+1 : len(last)-1]
+			rep.Count("deletes_checked", 1)
+			if err := boltz.ValidateDeleted(tx, id); err != nil {
+				return fmt.Errorf("ValidateDeleted(%s): %v", id, err)
+			}
+			if where := post.ContainsBytes([]byte(id)); len(where) > 0 {
+				return fmt.Errorf("id %s still occurs after delete: %v", id, where)
+			}
+			return nil
+		}})
+	}
+	// cascade delete with three referrers, the target deleted in the same transaction as an earlier change of
+	// the referring store: neither the target nor a cascaded referrer may leave a trace
+	for _, wiring := range []fkWiring{fkIdxCascade, fkcCascadeNullable} {
+		fs := newFkScenario(wiring, []string{"#o1", "#o2"}, []string{"#w1", "#w2", "#w3"}, "3 referrers, (op; deleteOwner) per tx, no-trace oracle")
+		var fprogs [][]int
+		for i, a := range fs.Ops() {
+			fprogs = append(fprogs, []int{i})
+			for j, b := range fs.Ops() {
+				if strings.HasPrefix(b.Name, "deleteOwner(") && !strings.HasPrefix(a.Name, "deleteOwner(") {
+					fprogs = append(fprogs, []int{i, j})
+				}
+			}
+		}
+		runE1(rep, fs, explore.Config{Programs: fprogs, SkipRejectedPrefix: true, PerTransition: func(tx *bbolt.Tx, pre *explore.State, program []int, post *dump.Tree, m explore.Model) error {
+			last := fs.Ops()[program[len(program)-1]].Name
+			if !strings.HasPrefix(last, "deleteOwner(") && !strings.HasPrefix(last, "deleteWidget(") {
+				return nil
+			}
+			id := strings.Trim(last[strings.Index(last, "(")+1:len(last)-1], "\"")
 			rep.Count("deletes_checked", 1)
 			if err := boltz.ValidateDeleted(tx, id); err != nil {
 				return fmt.Errorf("ValidateDeleted(%s): %v", id, err)
